@@ -397,6 +397,21 @@ def _check_kinds(ctx: Ctx) -> None:
     ctx.obligation('C11.c', fn.qualname, ok, {'store': norm(st[0])[:90] if st else None, 'why_not': k.why[:2]})
     if not ok:
         ctx.violation('C11.c', fn.qualname, 'external-interference covariance is not pe * H H^H: %s' % k.why[:2], fn.path, fn.lineno, operand='psd')
+    # ... and is LINEAR in the external-interference power pe (a pre-scaled channel inside the Gram product gives pe**2)
+    from ..astutil import degree_in, single_locals
+    pname = [p_ for p_ in fn.params if p_ != 'self']
+    if len(st) == 1 and pname:
+        construct = fn.qualname + ':linear-in-' + pname[0]
+        ctx.instance('C11.c', construct)
+        dg = degree_in(st[0].value, pname[0], single_locals(fn))
+        if dg is None:
+            ctx.error('C11.c: cannot determine how the external-interference covariance scales with %s (`%s`): cannot tell'
+                      % (pname[0], norm(st[0].value)[:80]))
+        ctx.obligation('C11.c', construct, dg == 1, {'degree_in_%s' % pname[0]: dg, 'store': norm(st[0])[:90]})
+        if dg != 1:
+            ctx.violation('C11.c', fn.qualname, 'the external-interference covariance scales like %s**%d, not linearly: the power of the '
+                          'interference source enters %s' % (pname[0], dg, 'twice' if dg == 2 else 'not at all' if dg == 0 else 'wrongly'),
+                          fn.path, st[0].lineno, operand='linear:' + pname[0])
     fn = M.func(MU, 'MultiUserChannelMatrixExtInt.calc_cov_matrix_extint_plus_noise')
     ctx.instance('C11.c', fn.qualname)
     k = Kinds(fn)
@@ -415,6 +430,29 @@ def _check_kinds(ctx: Ctx) -> None:
     if not ok:
         ctx.violation('C11.c', fp.qualname, 'the noise/external covariance is not added exactly once after the sum', fp.path, fp.lineno,
                       operand='noise-once')
+    # the "noise variance or covariance matrix" argument is dispatched by a test that accepts EVERY real scalar
+    construct = fp.qualname + ':scalar-dispatch'
+    ctx.instance('C11.c', construct)
+    disp = [n for n in ast.walk(fp.node) if isinstance(n, ast.Call) and norm(n.func) in ('isinstance', 'np.isscalar', 'np.ndim')
+            and n.args and isinstance(n.args[0], ast.Name) and n.args[0].id in fp.params]
+    verdict = None
+    for c_ in disp:
+        f_ = norm(c_.func)
+        if f_ in ('np.isscalar', 'np.ndim'):
+            verdict = True
+        elif len(c_.args) == 2:
+            kinds = [norm(x).split('.')[-1] for x in (c_.args[1].elts if isinstance(c_.args[1], ast.Tuple) else [c_.args[1]])]
+            if 'Number' in kinds or 'Real' in kinds or ({'int', 'float'} <= set(kinds)):
+                verdict = True
+            elif set(kinds) <= {'float', 'int', 'complex', 'float64', 'floating'}:
+                verdict = False
+    if verdict is None:
+        ctx.error('C11.c: how %s tells a noise variance from a covariance matrix is not recognised (cannot tell)' % fp.qualname)
+    ctx.obligation('C11.c', construct, verdict, {'tests': [norm(c_)[:60] for c_ in disp]})
+    if not verdict:
+        ctx.violation('C11.c', fp.qualname, 'the noise argument is treated as a scalar variance only for %s: a variance given as another real '
+                      'scalar type (a Python int, numpy.float32, ...) is added to EVERY entry as if it were a covariance matrix'
+                      % [norm(c_)[:50] for c_ in disp], fp.path, disp[0].lineno, operand='scalar-dispatch')
     al = M.func(IA, 'IASolverBaseClass._calc_Bkl_cov_matrix_all_l')
     st = [n for n in ast.walk(al.node) if isinstance(n, ast.Assign) and isinstance(n.targets[0], ast.Subscript) and norm(n.targets[0].value) == 'Bkl_all_l']
     ctx.instance('C11.c', al.qualname + ':noise-once')
